@@ -429,6 +429,55 @@ fn same_key_over_messages() {
     }
 }
 
+/// found missing by seed C01g: an Err leaves the chain as it was — also the part of it that lives in
+/// the keepers' memory.  A migration (or an instantiation) fails AFTER the registry was written; the bytes
+/// are rolled back (checked), and the NEXT transaction must behave as if the failed one had never run:
+/// served by the old code, resp. the address free again.
+fn failed_registry_change_then_next_transaction() {
+    let mut t = top(1);
+    let (user, k0) = (t.w.user.clone(), t.w.ks[0].clone());
+    let code2 = t.w.app.store_code(sc::contract_v2());
+    let which = choose(3);
+    let before = snapshot(&t.w.app);
+    let r = catch(|| match which {
+        // the migrate entry point of the new code refuses
+        0 => t.w.app.migrate_contract(user.clone(), k0.clone(), &Script::new().write("half", "1").fail("refused"), code2).map(|_| ()),
+        // the migration succeeds inside a batch whose next message fails
+        1 => {
+            let m: CosmosMsg = WasmMsg::Migrate { contract_addr: k0.to_string(), new_code_id: code2, msg: Script::new().bin() }.into();
+            let bad: CosmosMsg = BankMsg::Send { to_address: k0.to_string(), amount: coins(1, "nonexistent") }.into();
+            t.w.app.execute_multi(user.clone(), vec![m, bad]).map(|_| ())
+        }
+        // a failing instantiation (the address was registered before the entry point ran)
+        _ => t.w.app.instantiate_contract(code2, user.clone(), &Script::new().write("h", "1").fail("refused"), &[], "ghost", None).map(|_| ()),
+    });
+    match r {
+        Err(p) => {
+            failure("no_panic", "panic", p);
+            return;
+        }
+        Ok(Ok(())) => {
+            check_native("failing_request_fails", false, || format!("variant {}", which));
+            return;
+        }
+        Ok(Err(_)) => {}
+    }
+    check_unchanged("err_leaves_every_byte_of_storage_unchanged", &t.w.app, &before);
+    witness("registry_change_rolled_back");
+    // the next transaction: a plain call of K0 (code 1 serves: no `v2` marker is written), and a fresh
+    // instantiation of code 2 (gets the address the failed one would have had — it must be free)
+    sc::trace_clear();
+    let r1 = t.w.app.execute_contract(user.clone(), k0.clone(), &Script::new().write("probe", "1"), &[]);
+    check_native("next_transaction_succeeds", r1.is_ok(), || format!("{:?}", r1.as_ref().err().map(|e| e.to_string())));
+    let trace = sc::trace_take();
+    let served_by: Vec<&str> = trace.iter().map(|e| e.entry).collect();
+    check_native("next_transaction_is_served_by_the_code_on_record", served_by == vec!["execute"], || format!("{:?}", served_by));
+    let v2 = t.w.app.wrap().query_wasm_raw(k0.to_string(), b"v2".to_vec()).unwrap();
+    check_native("next_transaction_is_served_by_the_code_on_record", v2.is_none(), || "the v2 marker was written".into());
+    let r2 = t.w.app.instantiate_contract(code2, user.clone(), &Script::new(), &[], "real", None);
+    check_native("next_transaction_succeeds", r2.is_ok(), || format!("{:?}", r2.as_ref().err().map(|e| e.to_string())));
+}
+
 /// the Executor helpers are thin wrappers: same atomicity
 fn helpers() {
     let mut t = top(2);
@@ -472,6 +521,7 @@ pub fn scenarios(tier: &str) -> Vec<Scenario> {
     v.push(Scenario::new("sudo_and_wasm_sudo", &["sudo_ok", "sudo_err"], sudo_atomic));
     v.push(Scenario::new("executor_helpers", &["helper_ok", "helper_err"], helpers));
     v.push(Scenario::new("execute_multi_same_key_set_and_removed_over_three_messages", &["same_key_ok"], same_key_over_messages));
+    v.push(Scenario::new("failed_migration_or_instantiation_then_the_next_transaction", &["registry_change_rolled_back"], failed_registry_change_then_next_transaction));
     v.push(Scenario::new("execute_multi_mixing_staking_and_bank_messages", &["staking_multi_ok", "staking_multi_err"], multi_with_staking_messages));
     v.push(Scenario::new(
         "staking_sudo_and_messages_failing_after_time_has_passed",
